@@ -83,6 +83,8 @@ def main(argv=None):
         keep = sorted(r.sample(range(len(jobs)), cap))
         jobs = [jobs[i] for i in keep]
     budget = getattr(mod, "BUDGET", {}).get(tier)
+    if budget:
+        budget *= float(os.environ.get("VERIF_BUDGET_SCALE", "1") or 1)  # (for runs with fewer workers than cores)
     deadline = t0 + budget if budget else None
 
     def progress(job, res):
